@@ -65,8 +65,15 @@ def lit_text(kind: str, v: Any) -> str:
 
 
 def _needs_recv_parens(n: Tuple) -> bool:
-    """Numeric literals cannot be followed directly by '.': `1.f` lexes as a float."""
+    """Numeric literals cannot be followed directly by '.': `1.f` lexes as a float. Even int literals are instead written with a blank
+    (`2 .f`, the other spelling the grammar admits), so that both spellings occur."""
+    if n[0] == "lit" and n[1] == "int" and isinstance(n[2], int) and n[2] % 2 == 0:
+        return False
     return n[0] == "lit" and n[1] in ("int", "uint", "double")
+
+
+def _recv_gap(n: Tuple) -> str:
+    return " " if n[0] == "lit" and n[1] == "int" and isinstance(n[2], int) and n[2] % 2 == 0 else ""
 
 
 def render(n: Tuple, mode: str = "min") -> str:
@@ -107,18 +114,18 @@ def render(n: Tuple, mode: str = "min") -> str:
         return f"{wrap(a, level(a) < MEMBER or _needs_recv_parens(a))}[{render(i, mode)}]"
     if t == "select":
         a = n[1]
-        return f"{wrap(a, level(a) < MEMBER or _needs_recv_parens(a))}.{n[2]}"
+        return f"{wrap(a, level(a) < MEMBER or _needs_recv_parens(a))}{_recv_gap(a)}.{n[2]}"
     if t == "has":
         a = n[1]
-        return f"has({wrap(a, level(a) < MEMBER or _needs_recv_parens(a))}.{n[2]})"
+        return f"has({wrap(a, level(a) < MEMBER or _needs_recv_parens(a))}{_recv_gap(a)}.{n[2]})"
     if t == "call":
         return f"{n[1]}({', '.join(render(x, mode) for x in n[2])})"
     if t == "method":
         a = n[1]
-        return f"{wrap(a, level(a) < MEMBER or _needs_recv_parens(a))}.{n[2]}({', '.join(render(x, mode) for x in n[3])})"
+        return f"{wrap(a, level(a) < MEMBER or _needs_recv_parens(a))}{_recv_gap(a)}.{n[2]}({', '.join(render(x, mode) for x in n[3])})"
     if t == "macro":
         a = n[1]
-        return f"{wrap(a, level(a) < MEMBER or _needs_recv_parens(a))}.{n[2]}({n[3]}, {render(n[4], mode)})"
+        return f"{wrap(a, level(a) < MEMBER or _needs_recv_parens(a))}{_recv_gap(a)}.{n[2]}({n[3]}, {render(n[4], mode)})"
     if t == "msg":
         a = n[1]
         return f"{wrap(a, level(a) < MEMBER or _needs_recv_parens(a))}{{" + ", ".join(f"{k}: {render(v, mode)}" for k, v in n[2]) + "}"
